@@ -113,7 +113,7 @@ impl Property for C15 {
         ]
     }
 
-    fn generate(&self, rng: &mut Rng, _thorough: bool) -> J {
+    fn generate(&self, rng: &mut Rng, thorough: bool) -> J {
         let mut cfg = sqlgen::gen_table_cfg(rng);
         if rng.chance(1, 3) {
             // make TIMESTAMP / BOOLEAN arguments common enough
@@ -122,6 +122,15 @@ impl Property for C15 {
         let mut lc = sqlgen::gen_line_cfg(rng);
         lc.bad_n_pct = 0;
         lc.n_range = *rng.pick(&[3, 10, 1000]);
+        // size regime: groups with more than 16 / 32 values and distinct values, recurring values
+        let large = rng.chance(if thorough { 20 } else { 6 }, 100);
+        if large {
+            lc.keys = rng.range(1, 2) as usize;
+            lc.n_range = *rng.pick(&[12, 30, 1000]);
+            lc.null_pct = *rng.pick(&[0, 10]);
+        }
+        // magnitude regime: INT values near 1e9 (squares sum beyond 2^53 but within i64) mixed with small ones
+        let big_n = rng.chance(1, 8);
         let split_law = rng.chance(1, 3);
         let query = if split_law {
             let mut q = sqlgen::Query::default();
@@ -141,8 +150,23 @@ impl Property for C15 {
         } else {
             sqlgen::gen_aggregate(rng, &cfg, &AggCfg { order_insensitive: true, allow_join: false, max_aggs: 5 })
         };
-        let n_lines = rng.range(1, 10) as usize;
+        let n_lines = if large { rng.range(18, if thorough { 60 } else { 40 }) as usize } else { rng.range(1, 10) as usize };
         let mut specs: Vec<sqlgen::LineSpec> = (0..n_lines).map(|_| sqlgen::gen_line_spec(rng, &cfg, &lc)).collect();
+        if big_n {
+            for s in specs.iter_mut().take(9) {
+                if s.n.is_some() && rng.chance(1, 2) {
+                    s.n = Some(format!("{}", rng.range(-900_000_000, 900_000_000)));
+                }
+            }
+            // keep the sum of squares inside i64: at most 9 large values
+            for s in specs.iter_mut().skip(9) {
+                if let Some(n) = &s.n {
+                    if n.len() > 7 {
+                        s.n = Some("5".to_owned());
+                    }
+                }
+            }
+        }
         for s in specs.iter_mut() {
             if s.r.is_some() && rng.chance(1, 3) {
                 s.r = Some(sqlgen::fmt_quarter(rng.range(-65536, 65536)));
@@ -191,7 +215,7 @@ impl Property for C15 {
                 }
                 orders.push(o);
             }
-            while orders.len() < 30 {
+            while orders.len() < if large { 14 } else { 30 } {
                 let mut o = ident.clone();
                 rng.shuffle(&mut o);
                 orders.push(o);
@@ -393,6 +417,8 @@ impl Property for C15 {
         }
         out.probe("first_value_null", specs.first().map(|s| s.n.is_none() || s.r.is_none()).unwrap_or(false) as u64);
         out.probe("timestamp_argument", upper.contains("(D)") as u64);
+        out.probe("large_more_than_16_lines", (n > 16) as u64);
+        out.probe("int_magnitude_above_1e8", specs.iter().any(|s| s.n.as_ref().map(|n| n.trim_start_matches('-').len() >= 9).unwrap_or(false)) as u64);
         out.probe("text_minmax", (upper.contains("MIN(K)") || upper.contains("MAX(K)")) as u64);
         out
     }
